@@ -75,7 +75,7 @@ def run(ctx):
 
     stages = []
     if quick:
-        stages.append(("general", ["-seed", seed, "-n", "700", "-eng", ["pebble", "mem"][ctx.seed % 2],
+        stages.append(("general", ["-seed", seed, "-n", "400", "-eng", ["pebble", "mem"][ctx.seed % 2],
                                    "-policy", ["compact", "local"][(ctx.seed // 2) % 2]], 3))
     else:
         stages.append(("general", ["-seed", seed, "-n", "2500", "-eng", "pebble", "-policy", "compact"], 5))
@@ -118,7 +118,7 @@ def run(ctx):
                 samples.extend(summ.get("samples", [])[:5])
         stats["fatal"].extend([dict(stage=name, **f) for f in (summ.get("fatal") or [])][:4])
         stats["driver_runs"].append(dict(stage=name, **{k: v for k, v in s.items()}))
-        for f, events, fails in D.validate(ctx, "ZInputTrace", "ZInputTrace.cfg", files, name, "reset"):
+        for f, events, fails, _known in D.validate(ctx, "ZInputTrace", "ZInputTrace.cfg", files, name, "reset"):
             if not fails and name == "general" and len(events) > 500 and f.endswith(".0.ndjson"):
                 good_files.append(f)
             stats["events"] += len(events)
@@ -187,6 +187,7 @@ def run(ctx):
         "treated like error replies (the store must not change), not as crashes",
         "path 2 feeds exactly the vectors the child's state machine was handed (recorded by a decorator around the real "
         "state machine), except the one being applied when a child died; slow-command limiter is nil there",
-        "known triggers (5 recorded findings) are kept out of the general corpus by inpKnownTrigger and produced on "
-        "purpose by the isolate stages",
+        "known triggers of the open findings are kept out of the general corpus by inpKnownTrigger (exactly the "
+        "triggering vector shapes) and produced on purpose by the isolate stages; non-UTF-8 table names are avoided on "
+        "path 1 only and exercised on path 2 (renamed table, collections < 100 elements, no slow limiter)",
     ])
